@@ -253,3 +253,132 @@ func byteMutate(rng *hlib.Rng, valid []byte) ([]byte, string) {
 		return append(append([]byte{}, b[:p]...), b[q:]...), "splice"
 	}
 }
+
+// ---------- structured mutations of JSON documents and RLP trees ----------
+
+type variant struct {
+	desc string
+	b    []byte
+}
+
+// jsonVariants: for every key at every depth of the document: delete it, set it to null, and replace
+// its value by a value of another JSON type (type confusion) or an over-long string.
+func jsonVariants(seed []byte) []variant {
+	var root any
+	if json.Unmarshal(seed, &root) != nil {
+		return nil
+	}
+	var out []variant
+	emit := func(desc string) {
+		if b, err := json.Marshal(root); err == nil {
+			out = append(out, variant{desc, b})
+		}
+	}
+	repl := []struct {
+		name string
+		v    any
+	}{{"null", nil}, {"num", 1.0}, {"str", "0x"}, {"badhex", "0xzz"}, {"oddhex", "0x123"}, {"empty-str", ""}, {"long-hex", "0x" + strings.Repeat("ab", 600)},
+		{"arr", []any{}}, {"arr-null", []any{nil}}, {"obj", map[string]any{}}, {"bool", true}, {"neg", -1.0}, {"huge", 1e300}}
+	var walk func(node any, path string, depth int)
+	walk = func(node any, path string, depth int) {
+		if depth > 8 {
+			return
+		}
+		switch n := node.(type) {
+		case map[string]any:
+			keys := make([]string, 0, len(n))
+			for k := range n {
+				keys = append(keys, k)
+			}
+			sort.Strings(keys)
+			for _, k := range keys {
+				old := n[k]
+				delete(n, k)
+				emit("json-delete " + path + "." + k)
+				for _, r := range repl {
+					n[k] = r.v
+					emit("json-" + r.name + " " + path + "." + k)
+				}
+				n[k] = old
+				walk(old, path+"."+k, depth+1)
+			}
+		case []any:
+			for i := 0; i < len(n) && i < 3; i++ {
+				old := n[i]
+				for _, r := range repl {
+					n[i] = r.v
+					emit(fmt.Sprintf("json-%s %s[%d]", r.name, path, i))
+				}
+				n[i] = old
+				walk(old, fmt.Sprintf("%s[%d]", path, i), depth+1)
+			}
+		}
+	}
+	walk(root, "$", 0)
+	return out
+}
+
+// rlpVariants: for every node of the RLP tree: drop it, replace it by an empty string / empty list /
+// strings of boundary lengths / a nested list, duplicate it.
+func rlpVariants(seed []byte, prefix int) []variant {
+	if prefix > len(seed) {
+		return nil
+	}
+	var root any
+	if rlp.DecodeBytes(seed[prefix:], &root) != nil {
+		return nil
+	}
+	var out []variant
+	emitRoot := func(desc string, r any) {
+		if b, err := rlp.EncodeToBytes(r); err == nil && len(b) < 1<<20 {
+			out = append(out, variant{desc, append(append([]byte{}, seed[:prefix]...), b...)})
+		}
+	}
+	repl := []struct {
+		name string
+		v    any
+	}{{"empty-str", []byte{}}, {"empty-list", []any{}}, {"len1", []byte{1}}, {"len19", fill(19, 0xab)}, {"len20", fill(20, 0xab)}, {"len21", fill(21, 0xab)},
+		{"len31", fill(31, 0xab)}, {"len32", fill(32, 0xab)}, {"len33", fill(33, 0xab)}, {"len64", fill(64, 0xab)}, {"len65", fill(65, 0xab)}, {"len1000", fill(1000, 0xab)},
+		{"nested", []any{[]any{[]byte{1}}}}}
+	var walk func(list []any, set func([]any), path string, depth int)
+	walk = func(list []any, set func([]any), path string, depth int) {
+		if depth > 8 {
+			return
+		}
+		for i := 0; i < len(list) && i < 24; i++ {
+			p := fmt.Sprintf("%s[%d]", path, i)
+			// drop
+			dropped := append(append([]any{}, list[:i]...), list[i+1:]...)
+			set(dropped)
+			emitRoot("rlp-drop "+p, root)
+			// duplicate
+			dup := append(append(append([]any{}, list[:i+1]...), list[i]), list[i+1:]...)
+			set(dup)
+			emitRoot("rlp-dup "+p, root)
+			for _, r := range repl {
+				c := append([]any{}, list...)
+				c[i] = r.v
+				set(c)
+				emitRoot("rlp-"+r.name+" "+p, root)
+			}
+			set(list)
+			if sub, ok := list[i].([]any); ok {
+				i := i
+				walk(sub, func(ns []any) {
+					c := append([]any{}, list...)
+					c[i] = ns
+					set(c)
+				}, p, depth+1)
+				set(list)
+			}
+		}
+	}
+	if l, ok := root.([]any); ok {
+		walk(l, func(ns []any) { root = ns }, "$", 0)
+		root = l
+	}
+	for _, r := range repl {
+		emitRoot("rlp-"+r.name+" $", r.v)
+	}
+	return out
+}
